@@ -553,7 +553,10 @@ class Buildable(Generic[T], metaclass=abc.ABCMeta):
     Returns:
       A list of useful attribute names corresponding to set or unset parameters.
     """
-    set_argument_names = self.__arguments__.keys()
+    # Positional arguments are stored under int keys; those are not attributes.
+    set_argument_names = [
+        name for name in self.__arguments__.keys() if isinstance(name, str)
+    ]
     valid_param_names = set(self.__signature_info__.valid_param_names)
     all_names = valid_param_names.union(set_argument_names)
     return all_names
